@@ -521,11 +521,19 @@ impl<'a, P: ProcessRun> PubPoint<'a, P> {
 pub uninterp spec fn io_failure() -> bool;
 // Failure sources outside this unit (C41: the only places an Err can come from)
 pub uninterp spec fn store_open_failed(s: &StoreRun, ca: &CaCert) -> bool;
+// The certificate's manifest URI / rpkiNotify map to a path the store cannot use for a stored point.
+// An attribute of the CERTIFICATE (chosen by that CA), not of Routinator's storage.
+pub uninterp spec fn path_unusable(ca: &CaCert) -> bool;
 pub uninterp spec fn collector_failed(c: &CollectorRun, ca: &CaCert) -> bool;
 impl<'a> StoreRun<'a> {
     #[verifier::external_body]
+    // store::Run::pub_point -> Repository::get_point -> StoredPoint::open / create: the file path is
+    // derived from the CA's own manifest URI (and rpkiNotify). It fails when Routinator's own
+    // storage fails (io_failure) OR when that CA-chosen path cannot hold a stored point
+    // (path_unusable: nested under another point's file `.../b.mft/c.mft`, trailing slash, a path
+    // segment longer than the file system allows, ...) - a fault of THAT CA's content.
     pub fn pub_point(&self, ca: &CaCert) -> (r: Result<StoredPoint, Failed>)
-        ensures r is Err ==> store_open_failed(self, ca) && io_failure(),
+        ensures r is Err ==> store_open_failed(self, ca) && (io_failure() || path_unusable(ca)),
     { unimplemented!() }
 }
 impl<'a> CollectorRun<'a> {
